@@ -71,9 +71,9 @@ PROPS.update({
     'C04': dict(
         models=[mc_version('order', ['InvReflexive', 'InvAntisymmetric', 'InvEqIffKey', 'InvSucc'], 'MC_Order'),
                 mc_version('triples', ['InvTransitive'], 'MC_Triples', thorough_size='small')],
-        gens=[dict(scenario='vorder', n=dict(quick=6000, thorough=100000))],
+        gens=[dict(scenario='vorder', n=dict(quick=10000, thorough=150000))],
         events=['vcmp', 'vsort'],
-        rule='cases = every ordered pair of the version universe of MC_Version (3 or 6 tuples x all prerelease lists of length <= 2 over {0,2,10,a,B,a-,a0,1a,-,2^64-1,2^64-2}) (exhaustive) + seeded pairs and lists (<= 12) with components up to MAX_SAFE_INTEGER, numeric identifiers up to 2^64-1, identifier lists up to 6, confusable identifiers, build metadata; distinct = distinct case text',
+        rule='cases = every ordered pair of the version universe of MC_Version (3 or 6 tuples x all prerelease lists of length <= 2 over {0,2,10,a,B,a-,a0,1a,-,2^64-1,2^64-2}) (exhaustive) + seeded pairs and lists (<= 12) with components up to MAX_SAFE_INTEGER (also: all numbers of a pair within one bit length 1..50, a higher field equal or one apart, lower fields at the edges of that bit length), numeric identifiers up to 2^64-1, identifier lists up to 6, confusable identifiers, build metadata; distinct = distinct case text',
         exhaustive_models=True, assumptions=COMMON_ASSUME),
     'C05': dict(models=VTEXT_MODELS, gens=[dict(scenario='vtext', n=dict(quick=12000, thorough=120000))],
                 events=['vparse'], rule=VTEXT_RULE, exhaustive_models=True, assumptions=COMMON_ASSUME, chunks=14),
